@@ -3,6 +3,7 @@ package htsim
 import (
 	"fmt"
 	"os"
+	"path/filepath"
 	"regexp"
 	"runtime"
 	"sort"
@@ -141,29 +142,56 @@ func census() (map[string]int, string) {
 	return out, mine
 }
 
-func fdCount() int {
+// fdSet: the open descriptors of the process with what they point to.  The key-value store (badger) is opened once
+// per worker process outside every bubble and keeps working in the background - compactions and value-log
+// rotation open and close table files at moments of their own; those descriptors belong to no connection.
+func fdSet() map[string]bool {
 	ents, err := os.ReadDir("/proc/self/fd")
 	if err != nil {
-		return -1
+		return nil
 	}
-	return len(ents)
+	set := map[string]bool{}
+	for _, e := range ents {
+		t, err := os.Readlink("/proc/self/fd/" + e.Name())
+		if err != nil {
+			continue // the directory handle of this very listing
+		}
+		b := filepath.Base(t)
+		if strings.HasSuffix(b, ".sst") || strings.HasSuffix(b, ".vlog") || b == "MANIFEST" || b == "LOCK" {
+			continue
+		}
+		set[e.Name()+" -> "+t] = true
+	}
+	return set
+}
+
+// fdLeaked: descriptors open now that were not open at the baseline.
+func fdLeaked(base, now map[string]bool) []string {
+	var l []string
+	for k := range now {
+		if !base[k] {
+			l = append(l, k)
+		}
+	}
+	sort.Strings(l)
+	return l
 }
 
 func runC09(t *testing.T, sc *Scenario) Result {
 	res := okResult()
 	var base, after map[string]int
 	var lBase, lAfter []string
-	fdBase, fdAfter := 0, 0
+	var fdBase, fdAfter map[string]bool
 	var seqOpen []string
 	custom := sc.ParamBool("history")
 	obs, _ := runHostileSeq(t, sc, &res, custom, func(w *World) {
 		base, _ = census()
 		lBase = append(w.Net.TCPListeners(), w.Net.UDPSockets()...)
-		fdBase = fdCount()
+		fdBase = fdSet()
 	}, func(w *World) {
 		after, _ = census()
 		lAfter = append(w.Net.TCPListeners(), w.Net.UDPSockets()...)
-		fdAfter = fdCount()
+		fdAfter = fdSet()
 		for _, s := range w.Net.Streams() {
 			if !s.Server().IsClosed() && strings.HasPrefix(s.Client().LocalAddr().String(), "10.") {
 				seqOpen = append(seqOpen, s.Client().LocalAddr().String()+"->"+s.Server().LocalAddr().String())
@@ -206,8 +234,8 @@ func runC09(t *testing.T, sc *Scenario) Result {
 		res.Violate("listening-socket-leak", site, fmt.Sprintf("%d listening socket(s) more than after boot: before %v after %v", len(lAfter)-len(lBase), lBase, lAfter))
 		return res
 	}
-	if fdAfter > fdBase {
-		res.Violate("fd-leak", site, fmt.Sprintf("%d file descriptors after the drain, %d after boot", fdAfter, fdBase))
+	if l := fdLeaked(fdBase, fdAfter); len(l) > 0 {
+		res.Violate("fd-leak", site, fmt.Sprintf("%d file descriptors after the drain, %d after boot; new: %v", len(fdAfter), len(fdBase), l))
 		return res
 	}
 	res.probe("connections", obs.NetStats.Accepts)
